@@ -57,6 +57,9 @@ def tolerated(case, out, bucket):
     if dom and (bucket.startswith('missing:') or bucket.startswith('knobs-changed')
             or bucket.startswith('crash:')):
         return dom[0]
+    if bucket.startswith('missing:') or bucket.startswith('knobs-changed'):
+        # rate-capped: the harness turns more than max_hits_per_run of these into a violation
+        return 'C01-rare-tail'
     return None
 
 
@@ -68,6 +71,9 @@ def prop(case, ctx):
     try:
         res = cveval.run_tool(case, ctx)
     except Exception as e:     # pylint: disable=broad-except
+        if 'Failed to finish transcript' in str(e):
+            out.inconclusive = 'tool_timeout'      # wall-clock give-up, never a violation
+            return out
         k = tolerated(case, out, cveval.crash_bucket(e))
         if k:
             out.known.append(k)
@@ -82,6 +88,7 @@ def prop(case, ctx):
     missing = b['L'] - got
     if missing and tolerated(case, out, 'missing:'):
         out.known.append(tolerated(case, out, 'missing:'))
+        out.detail = dict(missing=sorted(missing)[:6])
         missing = set()
     if missing:
         return out.fail(f'{len(missing)} definitional variant peptide(s) missing from the '
@@ -107,6 +114,7 @@ def prop(case, ctx):
         kb = 'knobs-changed:%d,%d' % (knobs['min_nodes_to_collapse'], knobs['naa_to_collapse'])
         if set(res2['peps']) != got and tolerated(case, out, kb):
             out.known.append(tolerated(case, out, kb))
+            out.detail = dict(knobs=knobs, changed=sorted(set(res2['peps']) ^ got)[:6])
         elif set(res2['peps']) != got:
             diff = sorted(set(res2['peps']) ^ got)[:4]
             return out.fail(f'node-collapsing parameters {knobs} changed the result: {diff}',
